@@ -8,7 +8,7 @@ from ..ref import http as refhttp
 LEVEL = 'exploration'
 TECHNIQUE = 'runtime monitoring: ground-truth message lists through an independent RFC 6455 encoder, event-list oracle + payload alias monitor on the simulated socket'
 BUDGET_S = {'quick': 30, 'thorough': 240}
-REQUIRED = {'all': ['oracle.messages_compared', 'oracle.alias_checks', 'exhaustive4.cases']}
+REQUIRED = {'all': ['oracle.compressed_connection_runs', 'oracle.messages_compared', 'oracle.alias_checks', 'exhaustive4.cases']}
 RULE = ('abstract message lists (ground truth) -> RFC 6455 reference encoder -> simulated socket -> real '
         'lomond event loop; oracle compares the yielded message events with the ground-truth list and '
         're-checks every payload after the run (alias monitor). A class is (message kind, size class, '
@@ -89,15 +89,38 @@ def cases(tier, seed, i, n):
         count = 2500 if tier == 'quick' else 60000
         for idx in range(count):
             yield random_case(rnd, idx, tier)
+            if idx % 25 == 4:
+                # the same kind of sequence on a connection with permessage-deflate negotiated: a conforming
+                # server compresses (window = its own server_max_window_bits, here 15) whatever the client's
+                # window is; repeats far apart make a wrong inflate window visible
+                c = random_case(rnd, idx, tier)
+                blk = rnd.randrange(1 << 30)
+                far = [dict(k='binary', p=['rand', blk, 3000], cuts=[], z=True), dict(k='text', p=['textlen', blk, 800], cuts=[5], z=True),
+                       dict(k='binary', p=['rand', blk, 3000], cuts=[1000, 2000] if idx % 2 else [], z=True)]
+                for m in c['msgs']:
+                    if m['k'] in ('text', 'binary'):
+                        m['z'] = rnd.random() < 0.7
+                        m['lf'] = None
+                c['msgs'] = far[:1] + c['msgs'] + far[1:]
+                c['kind'] = 'zrand'
+                c['cbits'] = rnd.choice((8, 9, 10, 12, 15))
+                c['snct'] = False
+                yield c
     return gen.shard(allcases(), i, n)
 
 
 def run_case(case, acc):
     msgs = list(case['msgs'])
-    if case['kind'] == 'rand':
+    if case['kind'] in ('rand', 'zrand'):
         msgs = msgs + TRAILER
     allmsgs = msgs + ([case['close']] if case.get('close') else [])
-    frames, expected, ends = gen.frames_of(allmsgs)
+    zpeer = None
+    hs = None
+    if case['kind'] == 'zrand':
+        from ..ref import deflate_peer
+        zpeer = deflate_peer.Peer(15, case['cbits'], False, False)
+        hs = dict(extra=[('Sec-WebSocket-Extensions', 'permessage-deflate; client_max_window_bits=%d' % case['cbits'])])
+    frames, expected, ends = gen.frames_of(allmsgs, zpeer)
     nonminimal = False
     for m in allmsgs:
         lfs = m.get('lf')
@@ -126,8 +149,14 @@ def run_case(case, acc):
         cuts = [HS_LEN + c for c in gen.rand_cuts(rnd, len(stream))]
         if rnd.random() < 0.5:
             cuts.append(HS_LEN)
-    w = H.World(H.hs_server(steps), cuts=cuts)
-    run = H.drive(w, connect_kwargs=dict(ping_rate=0))
+    hl0 = HS_LEN
+    if hs is not None:
+        hl = len(refhttp.make_response(b'GET / HTTP/1.1\r\nSec-WebSocket-Key: AAAAAAAAAAAAAAAAAAAAAA==\r\n\r\n', hs))
+        if isinstance(cuts, list):
+            cuts = [c - hl0 + hl for c in cuts]
+        acc.count2('oracle', 'compressed_connection_runs')
+    w = H.World(H.hs_server(steps, hs), cuts=cuts)
+    run = H.drive(w, ws_kwargs=dict(compress=True) if hs is not None else None, connect_kwargs=dict(ping_rate=0))
     acc.count2('runs', 'end=' + str(run.end))
     got = run.messages()
     perr = [e for e in run.events if e.name == 'protocol_error']
